@@ -52,6 +52,14 @@ checks = {
    technique="deterministic simulation on the fake clock with crash-point enumeration: segments placed around the retention horizon, the real time-based pass, a crash after every mutating fs call of the pass, restart and repeated pass, store digest compared with the uninterrupted run",
    text="Victims must be exactly the rotated segments whose newest event is older than the horizon (decided at pass time on the simulated clock); survivors stay fully searchable, deleted data is gone, counts agree; for every crash point inside the pass the restarted node repeats the pass and must reach the same store digest (segment directories, segmeta.json, metrics meta, table names) as the uninterrupted run. Exhaustive over the pass's fs calls per explored history in the thorough tier.",
    note=TRUST + " Only the time-based pass is driven (volume- and inode-based passes are not). Segments are kept at least two minutes away from the horizon."),
+ "C15": dict(level="exploration", ref="DESIGN.md §4 C15",
+   technique="deterministic simulation with store-fault injection: generated bulk bodies sent through the in-memory listener to the real bulk route, EIO/ENOSPC/short-write/disk-full faults landing on chosen writes of the in-line flush, response items compared with what a search finds after the next flush",
+   text="Bulk bodies mixing valid and invalid actions go through the real fasthttp router and handler; a quarter of the cases are >2 MB requests whose in-line flush meets a store fault chosen by the plan at the disk seam. The oracle relates every response item to its action and to the documents found afterwards (created <=> searchable once, failed => absent, errors flag, locality of bad actions); under faults the relaxation is narrow: a failed item may be absent, a created item must be present.",
+   note=TRUST + " The 1000-seg-store limit is not driven. Unknown/delete actions are generated without a following document line."),
+ "C19": dict(level="exploration", ref="DESIGN.md §4 C19",
+   technique="deterministic simulation with a path-policing disk seam: hostile names driven through every API that derives a path from request data; every file-system call of the real code is checked at the seam against the allowed roots, plus a sentinel tree around the data directory",
+   text="Because every os call of the repository goes through the simulated disk seam, the oracle sees each operation the real code attempts - including ones that fail or are undone - and refuses (and reports) any whose cleaned absolute path is outside the data and log directories; a sentinel tree catches writers that bypass the seam.",
+   note=TRUST + " Reads of the fixed configured locations defaultDBs/, static/, server.yaml, /proc are allowed. Scroll ids are not driven."),
  "C17": dict(level="exploration", ref="DESIGN.md §4 C17",
    technique="deterministic simulation: seeded schedule search over the query lifecycle (concurrent sync queries incl. malformed texts, canceller, stall faults that let the short query time-out fire on the fake clock, admission limit 1-5), checked for admission limits, bounded answer time after faults stop, cancel promptness, empty tables and exact goroutine-leak detection after quiescence",
    text="Query clients, a canceller, a stall-fault injector and a monitor run as tasks of the seeded scheduler against the real admission queue, time-out goroutines and query pipeline; because the simulator owns task creation, 'no goroutine of the query remains' is decided exactly by comparing the live task set with the pre-workload baseline; deadlocks, hangs, spins and panics of the node are violations.",
